@@ -16,7 +16,7 @@ RULE = ("Schemas from specs (SDL-built and code-built with internal enum values 
         "(quick) and all configurations of C08 (thorough), with disable_introspection on/off. Oracle: the decoded "
         "introspection result (kinds, names, descriptions, fields / args / input fields in order, wrappers via ofType, "
         "enum values, interfaces, possible types as sets, directives with locations and args, roots, deprecation flags "
-        "and reasons) equals the schema structure extracted independently; deprecated members are hidden unless "
+        "and reasons) equals the schema structure extracted independently, names every type the spec declares (schemas are built from SDL, from code with every type supplied, or from code with only the types the library cannot discover by itself; some types hang on nothing but a directive argument) and describes every type it refers to; deprecated members are hidden unless "
         "requested; every defaultValue string parses as a GraphQL value and coerces back to the declared default; with "
         "introspection disabled __schema/__type/__typename contribute nothing and ordinary fields are unaffected. "
         "Non-trivial: the schema has a default value, a deprecation or an abstract type; distinct = (spec, mode, query).")
